@@ -15,13 +15,32 @@ typedef __int128 w128;
 #define A_u32(x) ((u32)(x))
 #define A_i64(x) ((u64)(x))
 #define A_u64(x) ((u64)(x))
-#define SMALL(v) ((w128)(v) > -((w128)1 << 15) && (w128)(v) < ((w128)1 << 15))
+/* optional per-query restriction to one dtype (pair): -DONLY_T=<id> [-DONLY_U=<id>] with ids i8=1 i32=2 u32=3 i64=4 u64=5 f32=6 f64=7 */
+#define ID_i8 1
+#define ID_i32 2
+#define ID_u32 3
+#define ID_i64 4
+#define ID_u64 5
+#define ID_f32 6
+#define ID_f64 7
+#ifndef ONLY_T
+#define ONLY_T 0
+#endif
+#ifndef ONLY_U
+#define ONLY_U 0
+#endif
+#define SEL1(T) (ONLY_T == 0 || ID_##T == ONLY_T)
+#define SEL2(T,U) ((ONLY_T == 0 || ID_##T == ONLY_T) && (ONLY_U == 0 || ID_##U == ONLY_U))
+#ifndef MULBITS
+#define MULBITS 15
+#endif
+#define SMALL(v) ((i64)(v) > -((i64)1 << MULBITS) && (i64)(v) < ((i64)1 << MULBITS))   /* only used for signed operands */
 
 #ifdef LEAF_INT
 #include "C07_leaf_int.h"
-#define UCHK(op, T, DOM, EXPR) { T x = (T)xb; if (DOM) { u64 out = 0; int r = k_##op##_##T(A_##T(x), &out); \
+#define UCHK(op, T, DOM, EXPR) if (SEL1(T)) { T x = (T)xb; if (DOM) { u64 out = 0; int r = k_##op##_##T(A_##T(x), &out); \
   ASSERT(r == 1, #op "(" #T "): view exists"); ASSERT((i64)out == (i64)(EXPR), #op "(" #T ") == " #EXPR " in C's result type"); OBS(out); } }
-#define BCHK(op, T, U, DOM, EXPR) { T x = (T)xb; U y = (U)yb; if (DOM) { u64 out = 0; int r = k_##op##_##T##_##U(A_##T(x), A_##U(y), &out); \
+#define BCHK(op, T, U, DOM, EXPR) if (SEL2(T,U)) { T x = (T)xb; U y = (U)yb; if (DOM) { u64 out = 0; int r = k_##op##_##T##_##U(A_##T(x), A_##U(y), &out); \
   ASSERT(r == 1, #op "(" #T "," #U "): view exists"); ASSERT((i64)out == (i64)(EXPR), #op "(" #T "," #U ") == " #EXPR " in C's result type"); OBS(out); } }
 #define NODIV0 ((w128)y != 0 && !(SGN(x / y) && (w128)x == RMIN(x / y) && (w128)y == -1))
 #define SHIFT_OK ((w128)y >= 0 && (w128)y < WIDTH(x << y))
@@ -56,7 +75,8 @@ typedef __int128 w128;
 #define B1(op) C07_INT_PAIRS(CHK_##op, op)
 void h_li_unary(void){   u64 xb = in_bits(); U1(negative) U1(positive) U1(invert) U1(logical_not) REACHED(); }
 void h_li_addsub(void){  u64 xb = in_bits(), yb = in_bits(); B1(add) B1(subtract) REACHED(); }
-void h_li_mul(void){     u64 xb = in_bits(), yb = in_bits(); B1(multiply) U1(square) REACHED(); }
+void h_li_mul(void){     u64 xb = in_bits(), yb = in_bits(); B1(multiply) REACHED(); }
+void h_li_square(void){  u64 xb = in_bits(); U1(square) REACHED(); }
 void h_li_divmod(void){  u64 xb = in_bits(), yb = in_bits(); B1(divide) B1(mod) U1(reciprocal) REACHED(); }
 void h_li_bitwise(void){ u64 xb = in_bits(), yb = in_bits(); B1(bitwise_and) B1(bitwise_or) B1(bitwise_xor) REACHED(); }
 void h_li_shift(void){   u64 xb = in_bits(), yb = in_bits(); B1(left_shift) B1(right_shift) REACHED(); }
